@@ -565,6 +565,109 @@ Proof.
   intros Hwf Hm Ha. rewrite (getopt_eq_spec t miss _ Hwf Hm Ha). reflexivity.
 Qed.
 
+
+Lemma NoDup_app_one (l : list str) (x : str) : NoDup l -> ~ In x l -> NoDup (l ++ [x]).
+Proof.
+  induction l as [|a l IH]; intros Hnd Hnin; [constructor; [intros []|constructor]|].
+  inversion Hnd as [|? ? Ha Hl]; subst. cbn [app]. constructor.
+  - intros Hin. apply in_app_or in Hin. destruct Hin as [Hin | [Hin | []]]; [contradiction|].
+    subst. apply Hnin. left. reflexivity.
+  - apply IH; [exact Hl|]. intros Hin. apply Hnin. right. exact Hin.
+Qed.
+
+(* ---------------- what getopt_register_opt enforces ---------------- *)
+Lemma fm_in (t : table) : forall i n h, In (Some (n, h)) t -> fm t i n <> None.
+Proof.
+  induction t as [|[[n' h']|] r IH]; intros i n h Hin; [destruct Hin| |].
+  - cbn [fm]. destruct Hin as [E | Hin].
+    + inversion E; subst. pose proof (strip_prefix_app n []) as Hs. rewrite app_nil_r in Hs. rewrite Hs. discriminate.
+    + destruct (strip_prefix n' n) as [[|c v]|]; [discriminate | | apply (IH _ _ _ Hin)].
+      destruct (N.eqb c EQC); [discriminate | apply (IH _ _ _ Hin)].
+  - cbn [fm]. destruct Hin as [E | Hin]; [discriminate | apply (IH _ _ _ Hin)].
+Qed.
+
+Lemma names_in n (t : table) : In n (names t) -> exists h, In (Some (n, h)) t.
+Proof.
+  induction t as [|[[n' h']|] r IH]; intros H; [destruct H| |].
+  - rewrite names_cons_some in H. destruct H as [H|H].
+    + subst. exists h'. left. reflexivity.
+    + destruct (IH H) as [h Hh]. exists h. right. exact Hh.
+  - rewrite names_cons_none in H. destruct (IH H) as [h Hh]. exists h. right. exact Hh.
+Qed.
+
+Lemma register_all_nodup (rem : table) : forall (done : table) s s',
+  g_optreset s = false -> g_init s = false -> g_opts s = Some (done ++ repeat None (length rem)) ->
+  g_default s = S (length (done ++ rem)) ->
+  names_nn done -> names_nn rem -> NoDup (names done) ->
+  register_all s rem (length done) = Ok s' -> NoDup (names (done ++ rem)).
+Proof.
+  induction rem as [|[[os h]|] rem IH]; intros done s s' H1 H2 H3 H4 Hd Hr Hnd E.
+  - rewrite app_nil_r. exact Hnd.
+  - cbn [register_all] in E. cbn [length repeat] in H3.
+    inversion Hr as [|? ? Hos Hr']; subst.
+    rewrite (register_opt_outcome s done (repeat None (length rem)) os h _ H1 H2 H3 H4 Hd (names_nn_repeat _) Hos) in E.
+    destruct (valid_name os); cbn [negb] in E; [|discriminate].
+    destruct (fm (done ++ None :: repeat None (length rem)) 0 os) as [[[[j ?] ?] ?]|] eqn:Hfm.
+    + exfalso. apply fm_lt in Hfm.
+      match type of E with context [?a =? ?x] => destruct (a =? x) eqn:Ej end; [|discriminate].
+      apply Nat.eqb_eq in Ej. rewrite app_length in Hfm, Ej. cbn [length] in Hfm, Ej.
+      rewrite repeat_length in Hfm. unfold slot, table, str in *. lia.
+    + cbn [bind] in E.
+      assert (~ In os (names done)) as Hnin.
+      { intros Hin. destruct (names_in os done Hin) as [h' Hh'].
+        apply (fm_in (done ++ None :: repeat None (length rem)) 0 os h'); [|exact Hfm].
+        apply in_or_app. left. exact Hh'. }
+      match type of E with register_all ?x _ _ = _ => set (s1 := x) in E end.
+      assert (g_opts s1 = Some ((done ++ [Some (os, h)]) ++ repeat None (length rem))) as A3
+        by (rewrite <- app_assoc; reflexivity).
+      assert (g_default s1 = S (length ((done ++ [Some (os, h)]) ++ rem))) as A4
+        by (change (g_default s1) with (g_default s); rewrite H4, !app_length; cbn [length]; lia).
+      assert (names_nn (done ++ [Some (os, h)])) as A5
+        by (apply names_nn_app; split; [exact Hd | constructor; [exact Hos | constructor]]).
+      assert (NoDup (names (done ++ [Some (os, h)]))) as A6.
+      { rewrite names_app. cbn [names flat_map app]. apply NoDup_app_one; assumption. }
+      specialize (IH (done ++ [Some (os, h)]) s1 s' H1 H2 A3 A4 A5 Hr' A6).
+      rewrite app_length in IH. cbn [length] in IH. replace (length done + 1) with (S (length done)) in IH by lia.
+      specialize (IH E). rewrite <- app_assoc in IH. exact IH.
+  - cbn [register_all] in E. cbn [length repeat] in H3. inversion Hr as [|? ? _ Hr']; subst.
+    assert (g_opts s = Some ((done ++ [None]) ++ repeat None (length rem))) as A3
+      by (rewrite <- app_assoc; exact H3).
+    assert (g_default s = S (length ((done ++ [None]) ++ rem))) as A4
+      by (rewrite H4, !app_length; cbn [length]; lia).
+    assert (names_nn (done ++ [None])) as A5
+      by (apply names_nn_app; split; [exact Hd | constructor; [exact I | constructor]]).
+    assert (NoDup (names (done ++ [None]))) as A6 by (rewrite names_app; cbn [names flat_map app]; rewrite app_nil_r; exact Hnd).
+    specialize (IH (done ++ [None]) s s' H1 H2 A3 A4 A5 Hr' A6).
+    rewrite app_length in IH. cbn [length] in IH. replace (length done + 1) with (S (length done)) in IH by lia.
+    specialize (IH E). rewrite <- app_assoc in IH. exact IH.
+Qed.
+
+Definition eq_free (n : str) : Prop := forall r, n = DASH :: DASH :: r -> ~ In EQC r.
+
+(* For tables whose long names contain no '=': the registration pass succeeds exactly on the
+   well-formed tables, i.e. wf_table is what getopt_register_opt enforces *)
+Theorem registration_enforces_wf s0 (t : table) miss (argv : list str) :
+  g_optreset s0 = true -> Forall no_nul argv -> names_nn t -> Forall eq_free (names t) ->
+  ((exists s', start s0 t miss argv = Ok s') <-> wf_table t).
+Proof.
+  intros H Ha Hn Hef. split.
+  - intros [s' E].
+    destruct (start_outcome s0 t miss argv H Ha Hn) as [E' | (s1 & E' & _ & _ & _ & Hv)]; [congruence|].
+    split.
+    + apply Forall_forall. intros n Hin. destruct (names_in n t Hin) as [h Hh]. split; [|split].
+      * apply (names_valid_in t n h Hv Hh).
+      * unfold names_nn in Hn. rewrite Forall_forall in Hn. apply (Hn _ Hh).
+      * rewrite Forall_forall in Hef. apply (Hef _ Hin).
+    + unfold start in E. rewrite (getopt_first s0 argv H Ha) in E. cbn [bind] in E. unfold setup in E.
+      set (s1' := set_default (S (length t)) (set_missing (S (length t))
+                   (set_opts (Some (repeat None (length t))) (after_reset s0)))) in *.
+      assert (setrange (after_reset s0) (length t) = Ok s1') as Es by reflexivity. rewrite Es in E. cbn [bind] in E.
+      destruct (register_all s1' t 0) as [s2| | |] eqn:Er; try discriminate.
+      assert (names_nn []) as Hnil by constructor.
+      exact (register_all_nodup t [] s1' s2 eq_refl eq_refl eq_refl eq_refl Hnil Hn (NoDup_nil _) Er).
+  - intros Hwf. destruct (start_wf s0 t miss argv H Ha Hwf) as (s' & E & _). exists s'. exact E.
+Qed.
+
 (* ---------------- non-vacuity ---------------- *)
 Definition s_b : str := [45; 98]%N.                     (* "-b" *)
 Definition s_f : str := [45; 102]%N.                    (* "-f" *)
